@@ -6,7 +6,11 @@ import (
 
 	"pgregory.net/rapid"
 
+	"fmt"
+
+	"verif/harness"
 	"verif/internal/gen"
+	"verif/internal/kf"
 	m "verif/internal/model"
 	"verif/internal/rt"
 	"verif/internal/stats"
@@ -75,4 +79,83 @@ func TestGRPCStreams(t *testing.T) {
 			fail(msg)
 		}
 	})
+}
+
+// streamReplay is what a replay of a failing streaming case needs.
+type streamReplay struct {
+	Service string           `json:"service"`
+	Method  string           `json:"method"`
+	Stream  *streamcase.Case `json:"stream"`
+	Message string           `json:"message"`
+}
+
+// judgeStream applies the three stream clauses to one observation.
+func judgeStream(d *m.Design, s *m.Service, meth *m.Method, c *streamcase.Case, obs *harness.Obs) string {
+	if c.FaultAt >= 0 {
+		stats.Class("stream:invalid-client-message")
+		msg, skipped := streamcase.Rejected(d, meth, c, obs)
+		if skipped {
+			stats.Class("skipped:mutant-not-expressible-in-go")
+			return ""
+		}
+		if msg != "" {
+			return "invalid streamed message: " + msg + "\n  fault: " + c.Fault.Desc
+		}
+		return ""
+	}
+	if msg := streamcase.ClientToServer(d, s, meth, c, obs); msg != "" {
+		return msg
+	}
+	return streamcase.ServerToClient(d, s, meth, c, obs)
+}
+
+// checkStreamMethod runs scripted calls of a streaming method of a generated design.
+func checkStreamMethod(t *testing.T, b *rt.Built, s *m.Service, meth *m.Method) bool {
+	d := b.Design
+	label := rt.MethodLabel(b, s, meth)
+	run := func(c *streamcase.Case) string {
+		obs, err := b.H.Do(c.Harness())
+		if err != nil {
+			return "INCONCLUSIVE harness: " + err.Error()
+		}
+		return judgeStream(d, s, meth, c, obs)
+	}
+	var replay streamReplay
+	if rt.LoadReplayCase(&replay) {
+		if replay.Service != s.Name || replay.Method != meth.Name || replay.Stream == nil {
+			return true
+		}
+		if msg := run(replay.Stream); msg != "" {
+			t.Errorf("replayed case still fails: %s", msg)
+			return false
+		}
+		fmt.Printf("replayed case passes: %s %s\n", s.Name, meth.Name)
+		return true
+	}
+	faults := true
+	if d.ObjectFields(meth.StreamingPayload) == nil && kf.Open("C10-primitive-payload-or-result-validation-not-enforced") {
+		faults = false
+	}
+	var last *streamReplay
+	ok := t.Run(label, func(t *testing.T) {
+		rapid.Check(t, func(rt_ *rapid.T) {
+			c := streamcase.GenFaulty(d, s, meth, "grpc", 8, faults).Draw(rt_, "case")
+			msg := run(c)
+			stats.CaseSample(b.Run.Name+"|"+c.Key(), len(c.Spec.Script) > 0, c.Describe())
+			stats.Class("stream:" + meth.Streaming)
+			stats.Class("kind:stream")
+			if msg != "" {
+				if strings.HasPrefix(msg, "INCONCLUSIVE") {
+					rt_.Fatalf("%s", msg)
+				}
+				last = &streamReplay{Service: s.Name, Method: meth.Name, Stream: c, Message: msg}
+				rt_.Fatalf("%s (%s, script %q): %s", label, meth.Streaming, c.Spec.Script, msg)
+			}
+		})
+	})
+	if !ok && last != nil {
+		dir := rt.SaveReplay(b, label, last)
+		fmt.Printf("C10 failing case saved: %s\n  design: %s\n  %s\n", dir, b.Run.Name, last.Message)
+	}
+	return ok
 }
